@@ -1,6 +1,6 @@
 """C13 at the first-order level with several generic structs (ImplMC.tla): coherent programs, the meaning as a function of the set of
 impls, the real solvers run on several declaration orders."""
-import json, os, random
+import json, math, os, random
 import harness, tlc, groundcheck as gc
 from props_mem import run_tlc_mc
 from common import seed, ToolError
@@ -216,7 +216,7 @@ def order_generic(run, tier, nperm=None, n=None, tag="C13impl", salt=7):
         for p in progs:
             m = len(p["impls"])
             orders = [list(range(m)), list(reversed(range(m)))][:nperm]
-            while len(orders) < nperm:
+            while len(orders) < min(nperm, math.factorial(m)):
                 o = list(range(m)); rnd.shuffle(o)
                 if o not in orders: orders.append(o)
             goals = ["%s: %s" % (show(g["ty"]), TR[g["tr"]]) for g in p["goals"]] + OPEN_GOALS
